@@ -135,7 +135,9 @@ def check_config(ctx, F, tag):
             if st["s"] == "assign" and st["rv"]["r"] == "agg" and st["rv"].get("def") == MM:
                 aggs.append((b, bi, si, st))
     ctx.count("MemoryMap-aggregates" + tag, len(aggs))
-    ctx.ob("C18.R5.single-constructor", MM + tag, nwhere, len(aggs) >= 1 and all(b.name == NEW for b, _, _, _ in aggs), "who-may-construct",
+    import inline
+    others_ = sorted({b.name for b, _, _, _ in aggs if b.name != NEW})
+    ctx.ob("C18.R5.single-constructor", MM + tag, nwhere, (len(aggs) >= 1 and not others_) if not inline.only_new(others_) else None, "who-may-construct",
            "MemoryMap aggregates are in: %s (must be only %s)" % (sorted({b.name for b, _, _, _ in aggs}), NEW))
     if not aggs:
         raise Undecided("anchor lost: no MemoryMap aggregate")
@@ -394,7 +396,7 @@ def check_config(ctx, F, tag):
                 for e in st["lhs"]["p"]:
                     if isinstance(e, dict) and e.get("adt") == MM and e.get("name") in ("ptr", "len"):
                         stores.append("%s (%s)" % (b.name, e["name"]))
-    ctx.ob("C18.R5.no-field-stores", MM + tag, nwhere, not stores, "who-may-store",
+    ctx.ob("C18.R5.no-field-stores", MM + tag, nwhere, (not stores) if not inline.only_new(stores) else None, "who-may-store",
            "direct stores to MemoryMap.ptr/len outside the aggregate: %s" % stores)
     bad = [t for t in ("std::clone::Clone", "std::marker::Copy") if F.derives(MM, t) or F.manual_impl(MM, t)]
     ctx.ob("C18.R5.not-clone-copy", MM + tag, loc(adt["span"]), not bad, "item-structure", "MemoryMap implements %s (must be neither)" % bad)
